@@ -146,33 +146,77 @@ def rule_segmerge(ctx):
     app = [m for m in s.by_kind("mutate") if m.how == "method:append" and m.root]
     ext = [m for m in s.by_kind("mutate") if m.how == "setitem" and m.root]
     need(len(app) == 1 and len(ext) == 1, R, "merge_chord_intervals: append / extend stores not found")
-    cond = None
-    for c, p in symeval.pc_conds(app[0].pc):
-        if p:
-            cond = c
+    # a new interval starts iff the encoded chord differs from the previous one in root, bitmap or bass.  The condition
+    # is read as a Boolean formula over the three atoms d_k = "component k differs" (x != prev, np.any(x != prev),
+    # not np.all(x == prev), ... in any arrangement, De Morgan included) and compared on all 8 valuations.
+    conds_app = [(c, p) for c, p in symeval.pc_conds(app[0].pc)]
+    cond = conds_app[-1][0] if conds_app else None
+
+    def comp_of(y):
+        for side in (y.a[1], y.a[2]):
+            if side.op == "iter" and side.a[0].op == "sub" and side.a[0].a[0] is enc[0].term and side.a[0].a[1].op == "const":
+                other = y.a[2] if side is y.a[1] else y.a[1]
+                if other.op == "loopvar":
+                    return int(side.a[0].a[1].a[0])
+        return None
+
+    def formula(t):
+        """python callable d -> bool (d: dict component -> differs), or None if outside the recognised forms"""
+        if t.op == "un" and t.a[0] == "not":
+            g = formula(t.a[1])
+            return None if g is None else (lambda d, g=g: not g(d))
+        if t.op == "bool":
+            gs = [formula(x) for x in t.a[1:]]
+            if any(g is None for g in gs):
+                return None
+            if t.a[0] == "and":
+                return lambda d, gs=gs: all(g(d) for g in gs)
+            return lambda d, gs=gs: any(g(d) for g in gs)
+        if t.op == "call" and call_name(t) in ("np.any", "np.all") and len(t.a[1]) == 1 and t.a[1][0].op == "cmp":
+            y = t.a[1][0]
+            k = comp_of(y)
+            if k is None:
+                return None
+            if call_name(t) == "np.any" and y.a[0] == "!=":
+                return lambda d, k=k: d[k]
+            if call_name(t) == "np.all" and y.a[0] == "==":
+                return lambda d, k=k: not d[k]
+            return None
+        if t.op == "cmp" and t.a[0] in ("!=", "=="):
+            k = comp_of(t)
+            if k is None:
+                return None
+            if t.a[0] == "!=":
+                return lambda d, k=k: d[k]
+            return lambda d, k=k: not d[k]
+        return None
+
     good = False
     why = "fusion condition not recognised"
-    if cond is not None and cond.op == "bool" and cond.a[0] == "or":
-        comps = set()
-        for x in cond.a[1:]:
-            y = x
-            if y.op == "call" and call_name(y) == "np.any":
-                y = y.a[1][0]
-            if y.op == "cmp" and y.a[0] == "!=":
-                for side in (y.a[1], y.a[2]):
-                    if side.op == "iter" and side.a[0].op == "sub" and side.a[0].a[0] is enc[0].term and side.a[0].a[1].op == "const":
-                        other = y.a[2] if side is y.a[1] else y.a[1]
-                        if other.op == "loopvar":
-                            comps.add(int(side.a[0].a[1].a[0]))
-        good = comps == {0, 1, 2} and len(cond.a) == 4
-        why = "a new interval starts iff root, bitmap or bass differs from the previous chord (components %s)" % sorted(comps)
+    if conds_app:
+        fs = [(formula(c), p) for c, p in conds_app]
+        if all(g is not None for g, _ in fs):
+            import itertools
+
+            good = True
+            for bits in itertools.product([False, True], repeat=3):
+                d = {0: bits[0], 1: bits[1], 2: bits[2]}
+                starts = all(g(d) == p for g, p in fs)
+                if starts != (bits[0] or bits[1] or bits[2]):
+                    good = False
+            why = "a new interval starts iff root, bitmap or bass differs from the previous chord (truth table over the three comparisons)" if good else "a new interval does not start exactly when root, bitmap or bass differs (condition %s)" % "; ".join(tm.show(c, 3) for c, _ in conds_app)
+        else:
+            raise AnalysisError(R, "merge_chord_intervals: fusion condition is outside the recognised comparison forms: %s" % "; ".join(tm.show(c, 3) for c, _ in conds_app))
     yield ob(R, f, "chord.merge_chord_intervals:fusion-condition", good, why, node=app[0].node)
     # the previous chord is updated when a new interval starts
     new_int = app[0].val.a[0] if app[0].val.op == "tuple" else None
     good = new_int is not None and new_int.op == "list" and len(new_int.a) == 2 and all(x.op == "iter" for x in new_int.a)
     yield ob(R, f, "chord.merge_chord_intervals:new-interval", good, "a new interval is [start, end] of the current row")
     e = ext[0]
-    good = tm.is_const(e.key, -1) and e.old.op == "sub" and tm.is_const(e.old.a[1], -1) and e.val.op == "iter" and any(c is cond and not p for c, p in symeval.pc_conds(e.pc))
+    app_key = [(c.id, p) for c, p in symeval.pc_conds(app[0].pc)]
+    ext_key = [(c.id, p) for c, p in symeval.pc_conds(e.pc)]
+    complementary = len(app_key) == len(ext_key) and app_key[:-1] == ext_key[:-1] and app_key[-1][0] == ext_key[-1][0] and app_key[-1][1] != ext_key[-1][1]
+    good = tm.is_const(e.key, -1) and e.old.op == "sub" and tm.is_const(e.old.a[1], -1) and e.val.op == "iter" and complementary
     col = e.val.a[0] if e.val.op == "iter" else None
     good = good and col is not None and col.op == "sub" and tm.show(col.a[1], 2).endswith("1)")
     yield ob(R, f, "chord.merge_chord_intervals:extend", good, "otherwise the end of the previous merged interval is moved to the current row's end (merged[-1][-1] = e)", node=e.node)
